@@ -6,6 +6,7 @@
 package verifsched
 
 import (
+	"fmt"
 	"hash/fnv"
 	"runtime"
 	"sort"
@@ -118,7 +119,7 @@ func Point(id string) {
 	}
 	if ms != -2 || fn != nil {
 		if len(delayed) < 64 {
-			delayed = append(delayed, id)
+			delayed = append(delayed, fmt.Sprintf("%s@%d=%d", id, n, ms))
 		}
 	}
 	mu.Unlock()
